@@ -56,6 +56,11 @@ impl SixelParser {
             self.parse_char(ch)?;
         }
         self.parse_char('#')?;
+        // pixel rows grow independently while decoding; pad them to the widest row so that the picture is a rectangle
+        let row_len = self.picture_data.iter().map(Vec::len).max().unwrap_or(0);
+        for line in &mut self.picture_data {
+            line.resize(row_len, 0);
+        }
         let mut picture_data = Vec::new();
         for y in 0..self.height() {
             let line = &self.picture_data[y as usize];
